@@ -102,8 +102,13 @@ def classify(case, rej, events):
     import re
     if case.get("kind") == "fuzz" and case.get("parser") == "rec" and rej["clause"] == "hang":
         m = re.search(r"P[^/]*", case["text"][1:] if case["text"].startswith("R") else case["text"])
-        if m and re.search(r"\d{7,}", m.group(0)):
-            return "recurrence-text-with-astronomical-interval"
+        for num in re.findall(r"\d+(?:[.,]\d*)?(?:[eE][+-]?\d+)?", m.group(0) if m else ""):
+            try:
+                big = float(num.replace(",", ".")) >= 1e7          # seven or more digits, or an exponent form of that size (PT1e30H)
+            except ValueError:
+                big = len(num) >= 7
+            if big:
+                return "recurrence-text-with-astronomical-interval"
     return None
 
 
